@@ -9,11 +9,45 @@ import (
 )
 
 type (
-	Locker    = sync.Locker
-	Cond      = sync.Cond
-	Map       = sync.Map
-	Pool      = sync.Pool
+	Locker = sync.Locker
+	Cond   = sync.Cond
+	Map    = sync.Map
 )
+
+// Pool mirrors sync.Pool. Under the scheduler it is a plain LIFO free list: sync.Pool may hand
+// back any item that was Put (or call New), and which one it does depends on the P the caller
+// runs on and on garbage collections, i.e. on nondeterminism the explorer does not own. The
+// LIFO model always reuses the most recently returned item - the choice under which a stale
+// reference to a recycled object (ABA) shows - and makes executions replayable.
+type Pool struct {
+	New   func() any
+	real  sync.Pool
+	items []any
+}
+
+func (p *Pool) Get() any {
+	if verifrt.On() {
+		if n := len(p.items); n > 0 {
+			x := p.items[n-1]
+			p.items = p.items[:n-1]
+			return x
+		}
+		if p.New != nil {
+			return p.New()
+		}
+		return nil
+	}
+	p.real.New = p.New
+	return p.real.Get()
+}
+
+func (p *Pool) Put(x any) {
+	if verifrt.On() {
+		p.items = append(p.items, x)
+		return
+	}
+	p.real.Put(x)
+}
 
 func NewCond(l Locker) *Cond { return sync.NewCond(l) }
 
